@@ -1,12 +1,14 @@
 import Okane.Spec.Import
 import Okane.Model.Literal
+import Okane.Lemmas.ImportReadback
 /-!
 # C15 — import emits ledger text that reads back as intended
 
 What is proved here is about the transaction `to_double_entry` builds (its exact shape, that it exists for
 every record, that numbers are carried digit for digit and only padded by the printer) and about the class
 `CleanText` of statement texts.  The read-back itself (printer then parser) is carried by the oracle on the
-real code; `C15_readback` states it over the printer / parser models.
+real code; `C15_readback` (last section) proves it over the printer / parser models of C05, for records inside
+`CleanText` without signed zero, under precisions ≤ 28.
 -/
 namespace Okane.Import
 open Okane
@@ -348,5 +350,256 @@ example : (exCleanTxn.toDoubleEntry "Assets:Bank").map' (fun tr => tr.posts.head
     = .ok (some true) := by decide
 -- C15_rescale_value: 12.5 CHF printed at precision 2 is 12.50 (same value, scale 2)
 example : Literal.displayRescale (fun _ => 2) ⟨false, 125, 1, none⟩ "CHF" = ⟨false, 1250, 2, none⟩ := by decide
+
+/-! ## Read-back: the printed text is parsed as the transaction built (printer and parser models of C05)
+
+`ImportCmd::run` prints every transaction with the configured precisions (`printTransactionP prec`, the printer of
+`Okane.Unparse` with a precision table; `printTransactionP_noPrec`, `printTransactionP_rescale` in
+`Lemmas/ImportReadback.lean`).  What the parser returns for that text is `readbackTxn prec tr`: the transaction built,
+with every number padded the way `display.rs::rescale` pads it and carrying the tag the literal scanner gives it
+(`readNum`: `plain` for four integer digits or more — `C07_print_exact`).  `C15_readback_number` says what that does
+to a number: nothing but padding.
+
+Conditions besides `CleanText`, each decidable:
+* `∀ c, prec c ≤ 28` — a configured precision beyond rust_decimal's maximal scale makes the printer write a number the
+  parser rejects (`C15_readback_prec_needed`: precision 29, amount `-0.1`);
+* `noSignedZero` — no number of the record is a zero carrying a minus sign *as it enters the tree*: the amount is not `-0`,
+  the counter-posting's number (the amount's or the transferred amount's magnitude with the opposite sign flag) is not
+  zero under a non-negative amount, balance / rates / charges are not `-0`.  A signed zero is printed `-0.00` and read back
+  as `0.00`: the tree read back is still `readbackTxn prec tr` on the witness (`C15_readback_zero_witness`, evaluated by the
+  kernel), but that tree no longer prints to the text that was read (`C15_signed_zero_not_fixed`), so the C05 round trip does
+  not apply.  `C15_readback_stmt` keeps the statement without this condition visible.
+-/
+open Okane.Parse Okane.Unparse
+
+/-- a decimal that is not a zero with the sign flag set -/
+def okDec (d : Dec) : Bool := !(d.neg && d.mant == 0)
+
+/-- no number the record puts into the tree is a signed zero -/
+def noSignedZero (t : Txn) : Bool :=
+  okDec t.amount.value && okDec (counterAmount t).value &&
+  (match t.balance with | some b => okDec b.value | none => true) &&
+  t.rates.all (fun kv => okDec kv.2.value) && t.charges.all (fun c => okDec c.amount.value)
+
+private theorem plain_of_okDec (d : Dec) (h : okDec d = true) : plainNum ⟨d.neg, d.mant, d.scale, none⟩ = true := by
+  simpa [plainNum, okDec] using h
+
+private theorem plain_shown (t : Txn) (a : OwnedAmount) (ha : okDec a.value = true)
+    (hr : t.rates.all (fun kv => okDec kv.2.value) = true) :
+    allV (fun d _ => plainNum d) (shownAmount t a).amount = true ∧
+    allExchange (fun d _ => plainNum d) (shownAmount t a).lot.price = true ∧
+    allExchange (fun d _ => plainNum d) (shownAmount t a).cost = true := by
+  refine ⟨plain_of_okDec _ ha, rfl, ?_⟩
+  simp only [shownAmount, rateFor]
+  cases hg : AMap.get? t.rates a.commodity with
+  | none => rfl
+  | some x =>
+    obtain ⟨k', hk'⟩ := get?_mem _ _ _ hg
+    have := List.all_eq_true.mp hr _ hk'
+    exact plain_of_okDec _ this
+
+/-- the tree built for a record without signed zero has only untagged numbers, none of them a signed zero -/
+theorem C15_plainNums (t : Txn) (src : String) (tr : Transaction) (hz : noSignedZero t = true)
+    (h : t.toDoubleEntry src = .ok tr) : plainNums tr = true := by
+  rw [C15_tree t src] at h
+  simp only [Outcome.ok.injEq] at h
+  subst h
+  simp only [noSignedZero, Bool.and_eq_true] at hz
+  obtain ⟨⟨⟨⟨z1, z2⟩, z3⟩, z4⟩, z5⟩ := hz
+  have hS : ∀ a, okDec a.value = true → ∀ (acc : String) (cl : ClearState) (md : List Metadata),
+      allPosting (fun d _ => plainNum d)
+        { account := acc, clear := cl, amount := some (shownAmount t a), balance := none, metadata := md } = true := by
+    intro a ha acc cl md
+    obtain ⟨g1, g2, g3⟩ := plain_shown t a ha z4
+    simp only [allPosting, g1, g2, g3, Bool.and_self]
+  have hsrcP : allPosting (fun d _ => plainNum d)
+      { account := src, clear := .uncleared, amount := some (shownAmount t t.amount),
+        balance := t.balance.map (fun b => VExpr.amt ⟨b.value.neg, b.value.mant, b.value.scale, none⟩ b.commodity),
+        metadata := [] } = true := by
+    obtain ⟨g1, g2, g3⟩ := plain_shown t t.amount z1 z4
+    simp only [allPosting, g1, g2, g3, Bool.and_self, Bool.true_and]
+    cases hb : t.balance with
+    | none => rfl
+    | some b => rw [hb] at z3; exact plain_of_okDec _ z3
+  have hch : ∀ c ∈ t.charges, allPosting (fun d _ => plainNum d)
+      { account := "Expenses:Commissions", clear := .uncleared, amount := some (shownAmount t c.amount),
+        balance := none, metadata := [Metadata.keyValue "Payee" (MetaValue.text c.payee)] } = true :=
+    fun c hc => hS c.amount (List.all_eq_true.mp z5 c hc) _ _ _
+  simp only [plainNums, allTxn]
+  cases t.amount.value.neg with
+  | false =>
+    simp only [Bool.false_eq_true, if_false, List.all_cons, List.all_append, List.all_nil, Bool.and_true, hsrcP,
+      hS _ z2, Bool.true_and, List.all_map]
+    exact List.all_eq_true.mpr (fun c hc => hch c hc)
+  | true =>
+    simp only [if_true, List.all_cons, List.all_append, List.all_nil, Bool.and_true, hsrcP,
+      hS _ z2, Bool.true_and, List.all_map]
+    exact List.all_eq_true.mpr (fun c hc => hch c hc)
+
+/-- **C15_readback.**  For every statement record inside `CleanText` without signed zero, every imported account, every
+precision table within rust_decimal's scale range and every display-width function: `to_double_entry` returns a
+transaction `tr`; the tree `readbackTxn prec tr` (`tr` with its numbers padded as printed) is well formed and plain
+(`wfEntry`, `plainEntry` of C05) and the C05 printer prints it to exactly the text the importer writes for `tr` under the
+configured precisions; that text starts an entry and the entry parser, whatever follows the blank line the importer
+writes after it, consumes exactly that text and returns `readbackTxn prec tr`. -/
+theorem C15_readback (prec : String → Nat) (hprec : ∀ c, prec c ≤ 28) (w : List Char → Nat) (t : Txn) (src : String)
+    (hclean : CleanText t src = true) (hz : noSignedZero t = true) :
+    ∃ tr, t.toDoubleEntry src = .ok tr ∧
+      wfEntry (.txn (readbackTxn prec tr)) = true ∧ C05.plainEntry (.txn (readbackTxn prec tr)) = true ∧
+      printTransactionP prec w tr = printTransaction w (readbackTxn prec tr) ∧
+      StartsEntry (printTransactionP prec w tr) ∧
+      ∀ rest, parseLedgerEntry (printTransactionP prec w tr ++ '\n' :: rest) =
+        .ok (.txn (readbackTxn prec tr)) ('\n' :: rest) := by
+  obtain ⟨tr, htr⟩ := C15_never_err t src
+  have hr := C15_partial t src tr hclean htr
+  have hn := C15_plainNums t src tr hz htr
+  have hc : (tr.clear != .uncleared || notClearMarkStart tr.payee.toList) = true := by
+    have := C15_tree t src
+    simp only at this
+    rw [this] at htr
+    simp only [Outcome.ok.injEq] at htr
+    subst htr
+    rfl
+  obtain ⟨h1, h2⟩ := readableTree_wf prec hprec tr hr hn hc
+  obtain ⟨h3, h4⟩ := readback_tree prec hprec w tr hr hn hc
+  exact ⟨tr, htr, h1, h2, (readback_print prec hprec w tr hr hn).symm, h3, h4⟩
+
+/-- **Nothing but padding.**  What `readbackTxn` does to a number `d` standing next to commodity `c`: the value is
+unchanged, the scale is never smaller and is `max scale (prec c)` whenever the padded mantissa fits 96 bits, the sign
+flag is kept on non-zero numbers; every other field of the transaction (dates, state, code, payee, comments, accounts,
+posting states, tags, the shape of every amount) is untouched. -/
+theorem C15_readback_number (prec : String → Nat) (d : PDec) (c : String) (hsc : d.scale ≤ 28) :
+    (readbackNum prec d c).toRat = d.toRat ∧ d.scale ≤ (readbackNum prec d c).scale ∧
+    (d.mant ≠ 0 → d.mant * 10 ^ (max d.scale (prec c) - d.scale) ≤ Literal.maxMant →
+      (readbackNum prec d c).scale = max d.scale (prec c)) ∧
+    (d.mant < 2 ^ 96 → prec c ≤ 28 → d.mant ≠ 0 → (readbackNum prec d c).neg = d.neg) := by
+  obtain ⟨h1, h2, h3⟩ := C15_rescale_value prec d c hsc
+  obtain ⟨g1, g2, g3⟩ := readNum_toRat (Literal.displayRescale prec d c)
+  refine ⟨by rw [readbackNum, g1, h1], by rw [readbackNum, g3]; exact h2, fun a b => by rw [readbackNum, g3]; exact h3 a b, ?_⟩
+  intro hm hp h0
+  obtain ⟨k1, _, _, _, k5⟩ := displayRescale_props prec d c hm hsc hp
+  have : (Literal.displayRescale prec d c).mant ≠ 0 := fun e => h0 (k5.mp e)
+  simp [readbackNum, readNum, k1, this]
+
+theorem C15_readback_shape (prec : String → Nat) (tr : Transaction) :
+    (readbackTxn prec tr).date = tr.date ∧ (readbackTxn prec tr).effectiveDate = tr.effectiveDate ∧
+    (readbackTxn prec tr).clear = tr.clear ∧ (readbackTxn prec tr).code = tr.code ∧
+    (readbackTxn prec tr).payee = tr.payee ∧ (readbackTxn prec tr).metadata = tr.metadata ∧
+    (readbackTxn prec tr).posts.length = tr.posts.length ∧
+    ∀ i (h : i < tr.posts.length) (h' : i < (readbackTxn prec tr).posts.length),
+      (readbackTxn prec tr).posts[i].account = tr.posts[i].account ∧
+      (readbackTxn prec tr).posts[i].clear = tr.posts[i].clear ∧
+      (readbackTxn prec tr).posts[i].metadata = tr.posts[i].metadata ∧
+      (readbackTxn prec tr).posts[i].amount = tr.posts[i].amount.map (mapPostingAmount (readbackNum prec)) ∧
+      (readbackTxn prec tr).posts[i].balance = tr.posts[i].balance.map (mapV (readbackNum prec)) := by
+  refine ⟨rfl, rfl, rfl, rfl, rfl, rfl, by simp [readbackTxn, mapTxn], ?_⟩
+  intro i h h'
+  simp [readbackTxn, mapTxn, mapPosting]
+
+/-- **C15_readback_ledger**: one transaction per record, and nothing else.  For every list of records inside `CleanText`
+without signed zero the importer's loop returns one transaction per record, and the ledger parser reads the whole text
+`ImportCmd::run` writes (each transaction followed by an empty line) as exactly those transactions, padded as printed, in
+order. -/
+theorem C15_readback_ledger (prec : String → Nat) (hprec : ∀ c, prec c ≤ 28) (w : List Char → Nat) (ts : List Txn)
+    (src : String) (h : ∀ t ∈ ts, CleanText t src = true ∧ noSignedZero t = true) :
+    ∃ trs, toDoubleEntries src ts = .ok trs ∧ ledgerOf src ts = .ok trs ∧ trs.length = ts.length ∧
+      parseEntries (importText prec w trs) = .ok (trs.map fun tr => Entry.txn (readbackTxn prec tr)) := by
+  have hall : ∃ trs, toDoubleEntries src ts = .ok trs ∧ trs.length = ts.length ∧
+      ∀ tr ∈ trs, ReadableTree tr = true ∧ plainNums tr = true ∧
+        (tr.clear != .uncleared || notClearMarkStart tr.payee.toList) = true := by
+    induction ts with
+    | nil => exact ⟨[], rfl, rfl, by simp⟩
+    | cons t rest ih =>
+      obtain ⟨trs, e1, e2, e3⟩ := ih (fun x hx => h x (by simp [hx]))
+      obtain ⟨hcl, hz⟩ := h t (by simp)
+      obtain ⟨tr, htr⟩ := C15_never_err t src
+      refine ⟨tr :: trs, by simp only [toDoubleEntries, htr, e1], by simp [e2], ?_⟩
+      intro x hx
+      simp only [List.mem_cons] at hx
+      rcases hx with rfl | hx
+      · refine ⟨C15_partial t src _ hcl htr, C15_plainNums t src _ hz htr, ?_⟩
+        have := C15_tree t src
+        simp only at this
+        rw [this] at htr
+        simp only [Outcome.ok.injEq] at htr
+        subst htr
+        rfl
+      · exact e3 x hx
+  obtain ⟨trs, e1, e2, e3⟩ := hall
+  exact ⟨trs, e1, by rw [ledgerOf_eq, e1], e2, readback_ledger prec hprec w trs e3⟩
+
+/-- **Kept visible**: the read-back for every record of `CleanText`, signed zeros included.  Not proved (the C05 round
+trip covers only trees that print the text that is read; `-0.00` is no such text), not refuted: on the zero-amount witness
+the parser model does return `readbackTxn prec tr` (`C15_readback_zero_witness`). -/
+def C15_readback_stmt : Prop :=
+  ∀ (prec : String → Nat), (∀ c, prec c ≤ 28) → ∀ (w : List Char → Nat) (t : Txn) (src : String), CleanText t src = true →
+    ∃ tr, t.toDoubleEntry src = .ok tr ∧
+      ∀ rest, parseLedgerEntry (printTransactionP prec w tr ++ '\n' :: rest) = .ok (.txn (readbackTxn prec tr)) ('\n' :: rest)
+
+/-- `C15_readback_stmt` restricted to records without signed zero is `C15_readback` -/
+theorem C15_readback_partial (prec : String → Nat) (hprec : ∀ c, prec c ≤ 28) (w : List Char → Nat) (t : Txn) (src : String)
+    (hclean : CleanText t src = true) (hz : noSignedZero t = true) :
+    ∃ tr, t.toDoubleEntry src = .ok tr ∧
+      ∀ rest, parseLedgerEntry (printTransactionP prec w tr ++ '\n' :: rest) = .ok (.txn (readbackTxn prec tr)) ('\n' :: rest) := by
+  obtain ⟨tr, h1, _, _, _, _, h6⟩ := C15_readback prec hprec w t src hclean hz
+  exact ⟨tr, h1, h6⟩
+
+/-! ### the conditions are needed; non-vacuity -/
+
+/-- the tree of a record on the account `Assets:Bank` -/
+def builtTree (t : Txn) : Transaction :=
+  match t.toDoubleEntry "Assets:Bank" with
+  | .ok tr => tr
+  | _ => default
+
+/-- the printed ledger is read back as the padded trees (executable form of `C15_readback_ledger`'s conclusion) -/
+def readsBack (prec : String → Nat) (w : List Char → Nat) (trs : List Transaction) : Bool :=
+  match parseEntries (importText prec w trs) with
+  | .ok es => es == trs.map (fun tr => Entry.txn (readbackTxn prec tr))
+  | _ => false
+
+/-- CHF is configured with three decimal places -/
+def exPrec : String → Nat := fun c => if c = "CHF" then 3 else 0
+/-- a precision beyond rust_decimal's maximal scale -/
+def exPrec29 : String → Nat := fun c => if c = "CHF" then 29 else 0
+/-- a statement line with amount `0.00 CHF` -/
+def exZeroTxn : Txn := Txn.new ⟨2024, 1, 5⟩ "info line" ⟨⟨false, 0, 2⟩, "CHF"⟩
+/-- `-0.1 CHF` -/
+def exSmallTxn : Txn := Txn.new ⟨2024, 1, 5⟩ "shop" ⟨⟨true, 1, 1⟩, "CHF"⟩
+
+example : ∀ c, exPrec c ≤ 28 := by intro c; simp only [exPrec]; split <;> omega
+example : CleanText exCleanTxn "Assets:Bank" = true ∧ noSignedZero exCleanTxn = true := by decide
+-- the text `C15_readback` speaks about, for `exCleanTxn` under `exPrec` (amounts in CHF padded to three places; `1000.000`
+-- is read back with the tag `plain`)
+example : printTransactionP exPrec widthStd (builtTree exCleanTxn) =
+    ("2024/02/29=2024/03/01 * (1234) Migros (Zürich) *\n    ; ref 42\n" ++
+     "    Expenses:Food & Drink                      11.50 EUR @ 1.087 CHF\n" ++
+     "    Expenses:Commissions                       0.500 CHF\n    ; Payee: Bank (fee)\n" ++
+     "    Assets:Bank                              -12.500 CHF = 1000.000 CHF\n").toList := by decide +kernel
+example : ((readbackTxn exPrec (builtTree exCleanTxn)).posts.getLast?.map (·.balance)) =
+    some (some (VExpr.amt ⟨false, 1000000, 3, some .plain⟩ "CHF")) := by decide +kernel
+
+/-- **precisions beyond 28 break the read-back**: under precision 29 the importer prints `-0.1 CHF` with 29 decimal
+places, which the ledger parser rejects (the record is inside `CleanText` and has no signed zero). -/
+theorem C15_readback_prec_needed :
+    CleanText exSmallTxn "Assets:Bank" = true ∧ noSignedZero exSmallTxn = true ∧
+    (parseEntries (importText exPrec29 widthStd [builtTree exSmallTxn])).isOk = false := by
+  decide +kernel
+
+/-- **a signed zero is not a fixed point of print-then-read**: for the record `0.00 CHF` (inside `CleanText`) the
+counter-posting carries `-0.00`; the tree read back does not print to the text it was read from, so `wfEntry` fails
+for it and the C05 round trip does not apply. -/
+theorem C15_signed_zero_not_fixed :
+    CleanText exZeroTxn "Assets:Bank" = true ∧ noSignedZero exZeroTxn = false ∧
+    (printTransaction widthStd (readbackTxn exPrec (builtTree exZeroTxn)) ==
+      printTransactionP exPrec widthStd (builtTree exZeroTxn)) = false := by
+  decide +kernel
+
+/-- … yet on this witness the parser model does return `readbackTxn prec tr` (evidence for `C15_readback_stmt`) -/
+theorem C15_readback_zero_witness : readsBack exPrec widthStd [builtTree exZeroTxn] = true := by
+  decide +kernel
+
+-- `C15_readback_ledger` on two records, evaluated
+example : readsBack exPrec widthCjk [builtTree exCleanTxn, builtTree exSmallTxn] = true := by decide +kernel
 
 end Okane.Import
